@@ -55,7 +55,9 @@ def gen_ledger_text(rng, ntxn=None, with_errors=False, conversions=True):
             prices[cur] = prices[cur] + Decimal(rng.range(-20, 30)) / 10
             if prices[cur] <= 0:
                 prices[cur] = Decimal('0.5')
-            lines.append('%s price %s %s' % (date.isoformat(), cur, fmt_amount(prices[cur], 'USD')))
+            # every other quoted price carries a third decimal (market values with more digits than the display precision)
+            quoted = prices[cur] + (Decimal('0.003') if k % 2 == 0 else 0)
+            lines.append('%s price %s %s' % (date.isoformat(), cur, fmt_amount(quoted, 'USD')))
             continue
         if kind == 'note':
             lines.append('%s note %s "a note %d"' % (date.isoformat(), rng.choice(ACCOUNTS), k))
@@ -94,8 +96,12 @@ def gen_ledger_text(rng, ntxn=None, with_errors=False, conversions=True):
         if rng.chance(1, 8):
             lines.append('  flagged: TRUE')
 
-        def posting(acc, amount=None, extra='', meta=None):
-            s = '  %s' % acc
+        def posting(acc, amount=None, extra='', meta=None, flag=flag):
+            # some postings carry a flag of their own, different from the transaction's (chosen without drawing random numbers)
+            pf = ''
+            if (len(lines) * 7 + k) % 11 == 0:
+                pf = '! ' if flag == '*' else '* '
+            s = '  %s%s' % (pf, acc)
             if amount is not None:
                 s += '  ' + amount
             s += extra
